@@ -19,7 +19,7 @@ type c11MD struct {
 	r        *hx.Rand
 	feat     map[string]int
 	nid      int
-	inTarget bool
+	inTarget string
 }
 
 func (g *c11MD) use(f string) { g.feat[f]++ }
@@ -54,16 +54,16 @@ func (g *c11MD) itemprop(typed bool) string {
 // there is such an item at all.
 func (g *c11MD) element(depth int, inItem, typed bool, refTarget bool) *xn {
 	r := g.r
-	name := hx.Pick(r, []string{"div", "span", "div", "span", "a", "img", "meta", "link", "data", "object", "audio", "section"})
-	void := name == "img" || name == "meta" || name == "link"
+	name := hx.Pick(r, []string{"div", "span", "div", "span", "a", "img", "meta", "link", "data", "object", "audio", "section", "area", "video", "embed", "source", "track"})
+	void := name == "img" || name == "meta" || name == "link" || name == "area" || name == "embed" || name == "source" || name == "track"
 	n := &xn{name: name}
 	set := func(k, v string) { n.attrs = append(n.attrs, [2]string{k, v}) }
 	switch name {
-	case "a", "link":
+	case "a", "link", "area":
 		if r.Chance(5, 6) {
 			set("href", hx.Pick(r, []string{"http://example.org/abs", "rel", "#frag", "", "../up", "http://other.example/é"}))
 		}
-	case "img", "audio":
+	case "img", "audio", "video", "embed", "source", "track":
 		if r.Chance(5, 6) {
 			set("src", hx.Pick(r, []string{"http://example.org/img.png", "pic.png", "/root.png"}))
 		}
@@ -83,7 +83,7 @@ func (g *c11MD) element(depth int, inItem, typed bool, refTarget bool) *xn {
 	if k := hx.Pick(r, []string{"class", "title", "content", "lang"}); r.Chance(1, 8) && !(k == "content" && name == "meta") {
 		set(k, hx.Pick(r, []string{"c1", "x y", "en"}))
 	}
-	isItem := !void && name != "data" && name != "object" && name != "audio" && r.Chance(1, 3)
+	isItem := !void && name != "data" && name != "object" && name != "audio" && name != "video" && r.Chance(1, 3)
 	if (inItem || refTarget) && r.Chance(3, 5) {
 		if refTarget && !inItem {
 			// reached through itemref from items with and without a type: absolute names only
@@ -115,10 +115,14 @@ func (g *c11MD) element(depth int, inItem, typed bool, refTarget bool) *xn {
 			set("itemid", hx.Pick(r, []string{"http://example.org/id/1", "#me", "item2", "urn:x:item"}))
 			g.use("itemid")
 		}
-		if r.Chance(1, 3) && !g.inTarget {
-			// (an item inside a referenced element does not refer on: reference cycles are microdata errors)
-			set("itemref", hx.Pick(r, []string{"r1", "r2", "r1 r2", "r2 missing r1", "r3"}))
+		if r.Chance(1, 3) && g.inTarget == "" {
+			set("itemref", hx.Pick(r, []string{"r1", "r2", "r1 r2", "r2 missing r1", "r3", "r2 r1"}))
 			g.use("itemref")
+		} else if g.inTarget == "r2" && r.Chance(1, 2) {
+			// an item inside the element r2 refers on to r1, whose content refers nowhere (reference cycles are
+			// microdata errors)
+			set("itemref", "r1")
+			g.use("itemref-inside-referenced-element")
 		}
 	}
 	if void {
@@ -172,9 +176,9 @@ func c11Microdata(r *hx.Rand, n int, out *hx.Out, _ []string) {
 		body := &xn{name: "body"}
 		// the elements itemref points at stand outside every item, before or after the items
 		target := func(id string) *xn {
-			g.inTarget = true
+			g.inTarget = id
 			t := g.element(2, false, false, true)
-			g.inTarget = false
+			g.inTarget = ""
 			t.attrs = append(t.attrs, [2]string{"id", id})
 			return t
 		}
